@@ -1,13 +1,51 @@
 N = {"quick": 600, "thorough": 12000}
 EXHAUSTIVE = {"quick": False, "thorough": True}
-RULE = ("placeholder")
-ASSUMPTIONS = []
+RULE = ("every case drives the real MockExecution (one clone per worker task) against a real MockExchange::run task over the real tokio channels (unbounded mpsc "
+        "for requests, a oneshot per response, broadcast for account events) on a current-thread tokio runtime with a paused clock; the harness never sleeps "
+        "(virtual time moves only by `adv`), runs the runtime to quiescence after every operation, schedules / deschedules the exchange task through a gating "
+        "wrapper around the real `run` future and aborts it for `exch stop`. Random cases: a configuration (latency in {0,1,2,7,100,101} ms, fee in "
+        "{0,0.001,0.01,0.1,0.25} and occasionally -0.01, broadcast capacity in {1,2,3,4,5,8,16,256}, 1-4 assets, 0-3 instruments, 5 % ill-formed so that "
+        "open_order panics and the exchange task dies), 0-3 initial InstrumentAccountSnapshots with 0-4 orders each (open 45 % / cancelled 30 % / in flight, "
+        "filled, expired, failed, cancel in flight 25 %; 20 % filed under a foreign instrument; 15 % of the cases with colliding client order ids), 1-4 "
+        "workers, then up to 30 (quick) / 70 (thorough) operations: call from an idle worker 38 % (open 55 % with known / unknown instrument, market / limit, "
+        "prices and quantities incl. 0 and negative; snapshot, balances, open orders, trades since, cancel), virtual time 20 % (0, 1, latency, latency-1, "
+        "latency/2, latency+1, 1000, random), client clock 10 % (mostly monotone, 15 % arbitrary), new account_stream subscriber 8 %, poll of a subscriber "
+        "12 %, exchange task descheduled / scheduled 4 % each, a worker dropping the future of its pending call 3 %, exchange aborted 1 % plus in a quarter "
+        "of the cases somewhere in the last 40 % of the history; 3 % of the calls address a busy or non-existent worker (both sides answer `bad-op`); 1 % of the "
+        "cases call MockExchange::cancel_order on the struct (unimplemented!). Thorough additionally enumerates every sequence of length <= 4 over 13 "
+        "operation symbols (two concurrent workers, accepted and rejected orders, snapshot, cancel, adv 1 / 2, exchange off / on / stop, abandon, sub, poll) "
+        "on a configuration with one configured open and one configured cancelled order, latency 2, capacity 4 (30 941 cases). 10 committed corpus cases "
+        "(corpus/C08C) pin the edge behaviours. Compared per operation: every completed call (worker, call number, elapsed virtual ms, response class, echo, "
+        "order id / fill / exchange time or error kind with asset and amounts, balances with time stamps, instrument groups in the order returned with their "
+        "orders, open orders, trades), the events handed to a polled subscriber and whether its stream ended, virtual time, and which worker waits on which "
+        "call. A case is distinct by the SHA-1 of its op lines and non-trivial when the implementation's observation blocks differ at least once")
+ASSUMPTIONS = [
+    "the ledger part of the exchange is the C08 model, imported and reused unchanged; everything C08 assumes applies (exact rational arithmetic, asset / "
+    "instrument names distinct, quantity means |q|)",
+    "configuration well formed (C08: every initial balance has total = free, instrument assets have balances) for every theorem about reachable states and "
+    "for the specification; an ill-formed configuration makes open_order panic: the model then treats the exchange task as gone (tied by correspondence "
+    "only, the spec is silent)",
+    "no two configured open orders and no two configured cancelled orders share a client order id (`Spec.distinctCids`) for the refinement theorems and the "
+    "specification; with a collision the code keeps the last one per cid (modelled, theorems cid_collision_last_wins / cid_collision_loses_an_order, tied "
+    "by correspondence, the spec is silent)",
+    "a FnvHashMap<ClientOrderId, _> is modelled as the list of its values sorted by key; the harness sorts what it gets from the maps the same way (open "
+    "orders by cid; inside one instrument group of a snapshot: open before cancelled, then cid) because the code's order there is hash-map iteration order "
+    "under an unstable sort; instrument names are zero padded so that their string order is the order of the indices",
+    "scheduling: operations are atomic and followed by the runtime running to quiescence (the harness yields 16 times; the longest wake-up chain needs 5); "
+    "latency tasks with the same deadline wake in spawn order (tokio's timer wheel is FIFO per slot, and all tasks spawned for one exchange have the same "
+    "latency, so deadlines are monotone in spawn order); the exchange task not being scheduled is modelled by a gate, its death by abort",
+    "tokio's unbounded mpsc is FIFO, a oneshot resolves with the value sent or with an error when the sender is dropped, a broadcast channel of capacity n "
+    "holds next_power_of_two(n) values and a receiver more than that behind gets Lagged; a Sender clone held by a sleeping notification task keeps the "
+    "channel open; the client's own `event_rx` keeps one receiver alive so `send` never fails",
+    "the client's clock function is an injected cell set by `clock <t>`; tracing output and serde / derive impls are not modelled",
+]
 SOURCE_FILES = ["barter-execution/src/client/mock/mod.rs", "barter-execution/src/exchange/mock/request.rs",
                 "barter-execution/src/exchange/mock/mod.rs", "barter-execution/src/exchange/mock/account.rs",
-                "barter-execution/src/client/mod.rs"]
+                "barter-execution/src/client/mod.rs", "barter/src/execution/builder.rs"]
 
 
 def signature(ops, k, key, impl_line, spec_line):
+    """clause = observation key without the worker prefix; op = operation class"""
     op = ops[k].split() if k < len(ops) else ["?"]
     cls = op[0]
     if op[0] == "call" and len(op) >= 3:
@@ -19,6 +57,37 @@ def signature(ops, k, key, impl_line, spec_line):
 
 
 CLAIM = False
-TECHNIQUE = "placeholder"
-LEVEL_TEXT = "placeholder"
-LEVEL_NOTE = "placeholder"
+TECHNIQUE = ("Lean 4: the C08 exchange model extended by the configured order maps (projection lemma: every C08 theorem transfers); the client / channel / task "
+             "system as a transition system over operations with history variables; one invariant (FIFO of call ids, every history record = the exchange's response "
+             "after the records before it, latency tasks = spawned minus the first `fired`, event log = notifications of the woken tasks, justified completions, "
+             "subscriber segments) kept by every operation, a tracking invariant for promptness, and a simulation with a history-only specification machine "
+             "(no exchange state, no timers, no channel buffer) proved operation by operation and over whole histories; correspondence of model and specification "
+             "with the real MockExecution + MockExchange::run under a paused tokio clock")
+LEVEL_TEXT = ("Proof (sub-check of C08). lean/BarterModel/Props/C08C.lean, 38 theorems, all for unbounded histories / arbitrary configurations, none `_partial`. EXCHANGE WITH "
+              "CONFIGURED ORDERS: ledger_is_C08 (the ledger part is the C08 exchange step by step and over histories); orders_never_change (market orders never rest: "
+              "cancelled orders untouched, open orders keep all but the time stamp, for every history); update_time_stamps / open_orders_carry_last_request_time "
+              "(exchange time t + latency/2 on the clock, every balance and every open order, not on cancelled ones; the LAST request's time, also backwards); "
+              "init_ignores_filing, init_keeps_configured_orders (with distinct cids exactly the configured open / cancelled orders, listed by cid; other states "
+              "dropped), cid_collision_last_wins + cid_collision_loses_an_order (maps keyed by cid ALONE: an order on another instrument with the same cid is lost), "
+              "fresh_id_collides_with_configured_id; snapshot_groups / instrument_listed_iff_has_order / snapshot_groups_eq_spec (instruments strictly ascending, each "
+              "once, a group = exactly that instrument's orders stably, never empty; instruments without orders - configured or filed empty - are not listed; the "
+              "grouping is unique); cancel_request_dropped; answers_refine_spec + configured_orders_reported_forever (after ANY history every response conforms to "
+              "the history-only answer - ledger = C08 spec, configured orders restamped, groups - and exactly that answer's notifications are broadcast). PROTOCOL, "
+              "for every reachable state of client + channels + tasks (any interleaving of calls from several workers, abandoned calls, the exchange task descheduled "
+              "/ scheduled / aborted, virtual time, subscriptions, polls): exchange_state_is_run; requests_seen_in_send_order (FIFO: processed ++ queued ++ lost = "
+              "sent); call_stamps_clock / request_carries_callers_clock (the stamp is the client clock at the call, however late the exchange gets to it); "
+              "response_is_answer_to_own_request (NO CROSS-TALK: a returned response is the exchange's response to that worker's own request in the state after the "
+              "requests processed before, conforms to the spec, arrives >= latency after the call, elapsed measured from the call); offline_only_if_cancel_or_gone; "
+              "nothing_overdue, response_task_is_for_its_request; notifications_are_balance_then_fill, account_stream_is_fills_in_order (channel = notifications of the "
+              "requests seen >= one latency ago, in processing order; channel ++ in flight = everything produced); subscriber_sees_contiguous_segment (a late subscriber "
+              "misses exactly what was sent before), subscription_starts_at_the_tail, poll_outcome (Lagged beyond the capacity ends the stream and hands over nothing), "
+              "capacity_is_next_power_of_two (least power of two >= n, proved); gone_exchange_stays_gone, call_on_gone_exchange_fails_at_once (elapsed 0), "
+              "abort_fails_waiting_calls, abandoned_call_is_invisible (a dropped receiver changes nothing else). REFINEMENT: no_completion_withheld (promptness), "
+              "stream_refines_spec, protocol_step_refines_spec (every operation from every reachable state: abstraction of the new state = the specification's new "
+              "state, same poll observation, completions match one to one with conforming responses; impossible iff impossible), protocol_refines_spec (whole "
+              "histories). Tied to the code on every run by executing the same operation histories against the real MockExecution / MockExchange.")
+LEVEL_NOTE = ("Trusted: Lean kernel; axioms propext/Classical.choice/Quot.sound only; the hand-written model incl. its reading of tokio's mpsc / oneshot / broadcast / "
+              "timer semantics (sampled correspondence: 600 quick / 12 000 random + 30 941 enumerated + 10 corpus cases thorough; 14 hand mutants of the client, the "
+              "dispatch loop, account.rs and the snapshot code are all caught); harness (gating wrapper, worker tasks, 16 yields per operation) and driver. Hypotheses: "
+              "well-formed configuration (C08), distinct client order ids among the configured open resp. cancelled orders. Outside: Decimal rounding / overflow, "
+              "multi-threaded runtimes (operations are atomic), wall-clock time, the `cancel_orders` / `open_orders` FuturesUnordered helpers of the trait.")
